@@ -24,6 +24,8 @@ pub struct Profile {
     /// percent chance per step to run everything that can run to completion (blocked
     /// getters stay blocked) and take a status() at rest
     pub p_quiesce: usize,
+    /// percent chance per step to start a get() and run it alone to its end
+    pub p_solo: usize,
 }
 
 impl Profile {
@@ -49,6 +51,7 @@ impl Profile {
             probe: true,
             p_start: 30,
             p_quiesce: 2,
+            p_solo: 2,
         };
         match name {
             // no resize / close: C01, C02 and friends
@@ -59,6 +62,7 @@ impl Profile {
             "cancel" => Profile {
                 w_ops: [50, 22, 5, 3, 1, 6, 6],
                 w_out: [35, 10, 25, 8, 17, 5],
+                p_solo: 10,
                 ..base
             },
             "faults" => Profile {
@@ -572,6 +576,44 @@ pub fn gen_trace(seed: u64, p: &Profile) -> TraceOut {
             if !quiesce(&mut w, &mut t) {
                 return fail(w, t);
             }
+            continue;
+        }
+        if rng.chance(p.p_solo) {
+            // a get() that runs alone from the current (arbitrary) state
+            let spec = if rng.chance(p.p_timeouts) {
+                Spec::Get(gen_tmo(&mut rng), gen_tmo(&mut rng), gen_tmo(&mut rng))
+            } else {
+                Spec::Get(Tmo::None, Tmo::None, Tmo::None)
+            };
+            t.lines.push("# solo".into());
+            if !do_action(&mut w, &Action::Start(spec), &mut t) {
+                return fail(w, t);
+            }
+            let i = w.sched.n_ops() - 1;
+            for _ in 0..60 {
+                if w.sched.op(i).done {
+                    break;
+                }
+                let en = w.enabled(i);
+                if en.is_empty() {
+                    break;
+                }
+                let op = w.sched.op(i);
+                let oc = if op.label == "get.acquire" && op.susp {
+                    // blocked: give up (cancel) or leave it to the others
+                    if rng.chance(70) {
+                        Outcome::Cancel
+                    } else {
+                        break;
+                    }
+                } else {
+                    pick_outcome(&mut rng, p, &en)
+                };
+                if !do_action(&mut w, &Action::Step(i, oc), &mut t) {
+                    return fail(w, t);
+                }
+            }
+            t.lines.push("# main".into());
             continue;
         }
         let can_start = started < p.max_ops;
